@@ -303,6 +303,20 @@ fn check_c01<T: HLabel>(env: &mut Env, built: &Built<T>) {
             h.borrow_mut().cap = Some(cap);
             let fac = monitor::monitored_factory(Backend::Cadical, h.clone());
             let mut solver = StaticSolver::new(&built.af, t.ty, *enc, fac);
+            // on every other framework the object first answers an acceptance query (not judged here):
+            // whatever it keeps from that must not shorten the extension it returns next
+            if abs.n > 0 && (abs.n + abs.att.len()) % 2 == 0 {
+                let a = (abs.att.len() * 7 + 1) % abs.n;
+                for kind in [QKind::DC, QKind::DS] {
+                    if t.ty.supports(kind) {
+                        let pre = Query { kind, args: vec![a], cert: false };
+                        let _ = ask(built, &mut solver, &pre);
+                    }
+                }
+                h.borrow_mut().reset_for_query();
+                h.borrow_mut().cap = Some(cap);
+                env.ctx.count("queries/extension-asked-after-an-acceptance-query-on-the-same-object");
+            }
             let mut first_class: Option<bool> = None;
             for round in 0..2 {
                 env.ctx.eval();
